@@ -112,6 +112,28 @@ def frame_integrity(ck, rule, modules=("src.parsers.cmap_reader", "src.parsers.b
                                  "rows of the file no longer reach the molecule one for one - two labels at the same coordinate, "
                                  "an id listed twice in the filter, or rows of *another* molecule decide what a molecule looks like",
                                  found=ast.unparse(node)[:140], required="read_csv -> [isin filter on the id column] -> groupby")
+    # the call that reads the table: with names= given, every non-comment line of the file is a data row - header=<n>, skiprows=,
+    # nrows=, skipfooter= ... take rows away before any molecule is looked at
+    n_csv = 0
+    for f in fns:
+        for node in ast.walk(f.node):
+            if isinstance(node, ast.Call) and ast.unparse(node.func).split(".")[-1] in ("read_csv", "read_table"):
+                n_csv += 1
+                kws = {k.arg: k.value for k in node.keywords if k.arg}
+                for kname in ("header", "skiprows", "nrows", "skipfooter", "chunksize", "iterator", "on_bad_lines", "index_col"):
+                    v = kws.get(kname)
+                    if v is None or (isinstance(v, ast.Constant) and (v.value is None or v.value is False)) or \
+                            (kname == "header" and "names" not in kws) or (kname == "on_bad_lines" and isinstance(v, ast.Constant) and v.value == "error"):
+                        continue
+                    hit = True
+                    ck.violation(rule, short(f) + f":read_csv:{kname}", where(f, node),
+                                 f"read_csv is called with {kname}={ast.unparse(v)}: "
+                                 + ("the column names are given with names= and the '#h' line is a comment, so the first *data* row of "
+                                    "every file is taken for a header and dropped" if kname == "header" else
+                                    "rows of the file are skipped, cut off or re-indexed before the molecules are grouped")
+                                 + " - which molecule loses a label (or its end marker) depends on what stands first in the file",
+                                 found=ast.unparse(node)[:160], required="read_csv(file, comment='#', delimiter='\\t', names=..., usecols=...)")
+    ck.floor(f"{rule} read_csv calls in the reader chain", n_csv, 1)
     ck.floor(f"{rule} method calls inspected in the reader chain", n, 8)
     if not hit:
         ck.ok(rule, "reader-chain:rows", fns[0].where if fns else "", f"{n} method calls in the reader chain: none removes, repeats or "
